@@ -161,6 +161,22 @@ def check(model: Model, run: Run) -> None:
     run.floor("tag-dispatch points", n_seq, 9)
     # ---- no decoder rejects an element because of the FORM of its header ---------------------------------------------------
     header_form_rejections(model, run)
+    # ---- one header routine: nothing outside asn1.py picks identifier / length octets apart by hand ---------------------------
+    n_hand = 0
+    for fq, fi in list(model.functions.items()):
+        if isinstance(fi.node, ast.Lambda) or fi.module == ASN1:
+            continue
+        for x in walk_no_nested(fi.node):
+            if isinstance(x, ast.BinOp) and isinstance(x.op, ast.BitAnd):
+                c_ = const_int(x.right) if const_int(x.right) is not None else const_int(x.left)
+                if c_ in (0x80, 0x7F, 0x1F, 0x20, 0xC0):
+                    other = x.left if const_int(x.right) is not None else x.right
+                    n_hand += 1
+                    run.ob("V1-single-header-routine", False, {"function": fq.split("sansldap.")[-1], "expression": norm(x)[:40]})
+                    run.fail(Finding("V1-single-header-routine", fq, norm(x)[:80],
+                                     f"{fq.split('sansldap.')[-1]} masks `{norm(other)[:40]}` with {c_:#x}: identifier / length octets are being decoded by hand outside the "
+                                     "header routine, with its own idea of which forms are acceptable", model.loc(fi.module, x)))
+    run.coverage["hand_decoded_header_octets_outside_asn1"] = n_hand
     # DEFAULT FALSE fields (writer omits when falsy) must be read with read_boolean into the same field
     for c, w in ex.wgram.items():
         res = ex.rres.get(c) if not short(c).endswith("Control") else ex.ctl_generic
